@@ -3,6 +3,7 @@
    evaluator of the language-neutral fragment under the JS flavour (Expr.eval Js: JS RegExp '.' in like).  That
    rbql-js implements this model is established by the correspondence run (harness/props/c19.py), as for Python. *)
 From RBQL Require Import Base Value Like Expr Writers Join Agg Engine Spec Engine_Proofs Update_Proofs AggEngine_Proofs.
+From RBQL Require Import JsKey JsKey_Proofs Utf16 Utf16_Proofs.
 
 Theorem C19_select_order_distinct_top :
   forall (q : query expr) hdr A B jm offs,
@@ -56,3 +57,53 @@ Print Assumptions C19_first_offender.
 Example C19_flavour_difference : like Py [13%N] [95%N] = true /\ like Js [13%N] [95%N] = false.
 Proof. split; reflexivity. Qed.
 Print Assumptions C19_flavour_difference.
+
+(* ------------------------------------------------------------------ keys and order as JavaScript has them
+   rbql-js identifies a record under DISTINCT / DISTINCT COUNT, a GROUP BY key and a JOIN key of several columns by the JSON
+   text of the array (JsKey.v: js_key r = js_stringify (JArr r)); the reference semantics identifies them by equality of the
+   tuples.  On faithful components (null, booleans, integers, strings of UTF-16 code units - every string, lone surrogates
+   included -, arrays of these) the text identifies exactly the equal tuples. *)
+Theorem C19_js_key_faithful :
+  forall r1 r2 : list jv, forallb faithful r1 = true -> forallb faithful r2 = true ->
+    (js_key r1 = js_key r2 <-> r1 = r2).
+Proof. exact js_key_faithful. Qed.
+Print Assumptions C19_js_key_faithful.
+
+(* the same for any two faithful values, arrays or not *)
+Theorem C19_js_stringify_injective :
+  forall v1 v2 : jv, faithful v1 = true -> faithful v2 = true -> js_stringify v1 = js_stringify v2 -> v1 = v2.
+Proof. exact js_stringify_injective. Qed.
+Print Assumptions C19_js_stringify_injective.
+
+(* NaN (undefined, an infinity) as a component prints as null: two different records, one key *)
+Theorem C19_js_key_nan_refuted :
+  exists v1 v2 : jv, v1 <> v2 /\ js_stringify v1 = js_stringify v2.
+Proof. exact js_key_nan_refuted. Qed.
+Print Assumptions C19_js_key_nan_refuted.
+
+(* JavaScript orders strings by UTF-16 code units, the reference (Python) by code points: the same order on strings whose
+   code points all lie below the surrogates or beyond the BMP (none in U+E000..U+FFFF), and on strings within the BMP *)
+Theorem C19_utf16_order_agree :
+  forall s t : str, forallb low_or_astral s = true -> forallb low_or_astral t = true ->
+    units_ltb (utf16_encode s) (utf16_encode t) = str_ltb s t.
+Proof. exact utf16_order_agree. Qed.
+Print Assumptions C19_utf16_order_agree.
+
+Theorem C19_utf16_order_agree_bmp :
+  forall s t : str, forallb bmp s = true -> forallb bmp t = true ->
+    units_ltb (utf16_encode s) (utf16_encode t) = str_ltb s t.
+Proof. exact utf16_order_agree_bmp. Qed.
+Print Assumptions C19_utf16_order_agree_bmp.
+
+(* ... and not the same order once a code point of U+E000..U+FFFF meets an astral one: U+FF01 against U+1F600 *)
+Theorem C19_utf16_order_refuted :
+  exists s t : str, forallb scalar s = true /\ forallb scalar t = true /\
+    units_ltb (utf16_encode s) (utf16_encode t) = false /\ str_ltb s t = true.
+Proof. exact utf16_order_refuted. Qed.
+Print Assumptions C19_utf16_order_refuted.
+
+(* equality of strings is not affected: the encoding is injective on scalar values *)
+Theorem C19_utf16_encode_injective :
+  forall s t : str, forallb scalar s = true -> forallb scalar t = true -> utf16_encode s = utf16_encode t -> s = t.
+Proof. exact utf16_encode_injective. Qed.
+Print Assumptions C19_utf16_encode_injective.
